@@ -195,7 +195,92 @@ func Load(cfg LoadCfg) (*Ctx, error) {
 	if seq > 0 {
 		dropUnreferencedNewFuncs(c, known)
 	}
+	markNewFuncs(c, known)
 	return c, nil
+}
+
+// newFuncObjs: unexported functions of the module that are not in the reviewed table (and were not expanded at their
+// call sites). A parameter of such a function that has one call site reads as the argument passed there.
+var newFuncObjs = map[types.Object]bool{}
+
+func markNewFuncs(c *Ctx, known map[string]bool) {
+	newFuncObjs = map[types.Object]bool{}
+	callSiteCache = nil
+	for _, p := range c.Pkgs {
+		if !(p.PkgPath == modPath || strings.HasPrefix(p.PkgPath, modPath+"/")) || p.TypesInfo == nil || strings.Contains(p.PkgPath, "/zz_ref_") {
+			continue
+		}
+		for _, f := range p.Syntax {
+			rel, err := filepath.Rel(c.Cfg.Dir, filepath.Dir(c.Fset.Position(f.Pos()).Filename))
+			if err != nil {
+				continue
+			}
+			for _, d := range f.Decls {
+				if fd, ok := d.(*ast.FuncDecl); ok && fd.Body != nil && !known[funcDeclKey(rel, fd)] && !fd.Name.IsExported() {
+					if o := p.TypesInfo.Defs[fd.Name]; o != nil {
+						newFuncObjs[o] = true
+					}
+				}
+			}
+		}
+	}
+}
+
+// callSiteCache: static call sites of the module's functions, and which functions are also used as values.
+var callSiteCache *struct {
+	sites   map[*ssa.Function][]*ssa.CallCommon
+	escaped map[*ssa.Function]bool
+}
+
+// uniqueCallArg: if fn is a new unexported function with exactly one static call site and no use as a value, the
+// argument passed for parameter number idx there.
+func (c *Ctx) uniqueCallArg(fn *ssa.Function, idx int) ssa.Value {
+	if fn == nil || fn.Object() == nil || !newFuncObjs[fn.Object()] {
+		return nil
+	}
+	if callSiteCache == nil {
+		callSiteCache = &struct {
+			sites   map[*ssa.Function][]*ssa.CallCommon
+			escaped map[*ssa.Function]bool
+		}{map[*ssa.Function][]*ssa.CallCommon{}, map[*ssa.Function]bool{}}
+		for _, f := range c.Funcs {
+			eachInstr(f, func(i ssa.Instruction) {
+				cc := callOf(i)
+				for _, op := range i.Operands(nil) {
+					if op == nil || *op == nil {
+						continue
+					}
+					g, ok := (*op).(*ssa.Function)
+					if !ok {
+						continue
+					}
+					if cc != nil && cc.Value == ssa.Value(g) && !cc.IsInvoke() {
+						continue
+					}
+					callSiteCache.escaped[g] = true
+				}
+				if cc != nil {
+					if g := staticCallee(cc); g != nil {
+						callSiteCache.sites[g] = append(callSiteCache.sites[g], cc)
+						// the function value itself must not also be passed as an argument
+						for _, a := range cc.Args {
+							if a == ssa.Value(g) {
+								callSiteCache.escaped[g] = true
+							}
+						}
+					}
+				}
+			})
+		}
+	}
+	if callSiteCache.escaped[fn] || len(callSiteCache.sites[fn]) != 1 {
+		return nil
+	}
+	args := callSiteCache.sites[fn][0].Args
+	if idx >= len(args) {
+		return nil
+	}
+	return args[idx]
 }
 
 // renameSubst: rendered qualified names of renamed functions -> their reviewed names (applied by shorten()).
